@@ -641,12 +641,18 @@ theorem processSend_goodV {c : C} {p : Pkt} (h : GoodV c.s) (hv : p.ver = c.s.ve
       | exact psV5Auth_goodV h p
       | exact psV5Simple_goodV h p
 
+theorem refuseSend_good {c : C} (h : Good c.s) (e : Nat) (p : Pkt) : Good (refuseSend c e p).s := by
+  unfold refuseSend
+  split
+  · exact releaseIfUsed_good (c := c.err e) h _
+  · exact h
+
 theorem send_good {c : C} {p : Pkt} (h : Good c.s) (hs : SendOk c.s p) : Good (send c p).s := by
   unfold send
   split
-  · exact h
+  · exact refuseSend_good h _ p
   · split
-    · exact h
+    · exact refuseSend_good h _ p
     · rename_i hv _
       have hv' : p.ver = c.s.ver := by
         by_cases e : c.s.ver = p.ver
